@@ -336,11 +336,13 @@ class SchemaBuilder(
         dependent_required = get_dependent_required(cls)
         result = []
         if discriminator_parent := get_discriminated_parent(cls):
-            discriminator_ref = self.ref_schema(
-                get_type_name(discriminator_parent).json_schema
-            )
-            assert discriminator_ref is not None
-            result.append(discriminator_ref)
+            # the definition of the discriminated class itself must not reference itself
+            if discriminator_parent is not cls:
+                discriminator_ref = self.ref_schema(
+                    get_type_name(discriminator_parent).json_schema
+                )
+                assert discriminator_ref is not None
+                result.append(discriminator_ref)
             additional_properties = True
         result.append(
             json_schema(
